@@ -208,3 +208,177 @@ Proof.
     + destruct S as [-> [l0 [H1 ->]]]. apply LL; [|exact IL].
       apply in_app_or in H1. apply in_or_app. destruct H1 as [H1|H1]; [left; exact H1 | right; apply in_labels_in_stmt; exact H1].
 Qed.
+
+Lemma p1_loop_spans suf : forall pre st,
+  J1 pre st ->
+  match p1_loop None st suf with
+  | AOk st' => J1 (pre ++ suf) st'
+  | AErr k sp => spans_ok (pre ++ suf) k sp
+  | APanic => True
+  end.
+Proof.
+  induction suf as [|s suf IH]; intros pre st J; cbn [p1_loop].
+  - rewrite app_nil_r. exact J.
+  - pose proof (p1_step_spans pre st s J) as S. destruct (p1_step None st s) as [st1|k sp|]; cbn [abind]; [| |exact Logic.I].
+    + specialize (IH (pre ++ [s]) st1 S). rewrite <- app_assoc in IH. exact IH.
+    + replace (pre ++ s :: suf) with ((pre ++ [s]) ++ suf) by (rewrite <- app_assoc; reflexivity). apply spans_ok_mono. exact S.
+Qed.
+
+Lemma pass1_spans p k sp : pass1 p None = AErr k sp -> spans_ok p k sp.
+Proof.
+  unfold pass1. intros E.
+  assert (J0 : J1 [] (mkP1 None [] [] None)) by (split; [intros ? ? [] | discriminate]).
+  pose proof (p1_loop_spans p [] _ J0) as S. cbn [app] in S.
+  destruct (p1_loop None (mkP1 None [] [] None) p) as [st|k0 sp0|]; cbn [abind] in E; [|injection E as <- <-; exact S|discriminate].
+  destruct (p1_cur st) as [cu|] eqn:ECU.
+  - injection E as <- <-. destruct S as [_ JC]. split; [discriminate|]. split; [|discriminate].
+    constructor; [left; exact (JC cu ECU)|constructor].
+  - destruct (p1_lines st); discriminate.
+Qed.
+
+(* ---------- pass 2 ---------- *)
+Lemma bt_insert_in {V} (m : list (Z * V)) k v x : In x (bt_insert k v m) -> x = (k, v) \/ In x m.
+Proof.
+  induction m as [|[k0 v0] m IH]; cbn [bt_insert]; intros H.
+  - destruct H as [<-|[]]. left; reflexivity.
+  - destruct (k <? k0); [destruct H as [<-|H]; [left; reflexivity | right; exact H]|].
+    destruct (k =? k0); [destruct H as [<-|H]; [left; reflexivity | right; right; exact H]|].
+    destruct H as [<-|H]; [right; left; reflexivity|]. destruct (IH H) as [->|H']; [left; reflexivity | right; right; exact H'].
+Qed.
+Lemma bt_le_in {V} (m : list (Z * V)) k x : bt_le k m = Some x -> In x m.
+Proof.
+  induction m as [|[k0 v0] m IH]; cbn [bt_le]; [discriminate|]. destruct (k0 <=? k); [|discriminate].
+  destruct (bt_le k m) as [y|]; intros [= <-]; [right; apply IH; reflexivity | left; reflexivity].
+Qed.
+Lemma bt_ge_in {V} (m : list (Z * V)) k x : bt_ge k m = Some x -> In x m.
+Proof.
+  induction m as [|[k0 v0] m IH]; cbn [bt_ge]; [discriminate|]. destruct (k <=? k0); [intros [= <-]; left; reflexivity | intros H; right; exact (IH H)].
+Qed.
+Lemma find_overlap_in blk cands b : find_overlap blk cands = AOk (Some b) -> exists k, In (k, b) cands.
+Proof.
+  induction cands as [|[k0 b0] cands IH]; cbn [find_overlap]; [discriminate|].
+  destruct (ob_range blk); [|discriminate]. destruct (ob_range b0); [|discriminate].
+  destruct (ranges_overlap p p0); [intros [= <-]; exists k0; left; reflexivity|].
+  intros H. destruct (IH H) as [k Hk]. exists k. right. exact Hk.
+Qed.
+
+Lemma find_overlap_no_err blk cands k sp : find_overlap blk cands <> AErr k sp.
+Proof.
+  induction cands as [|[k0 b0] cands IH]; cbn [find_overlap]; [discriminate|].
+  destruct (ob_range blk); [|discriminate]. destruct (ob_range b0); [|discriminate].
+  destruct (ranges_overlap p p0); [discriminate | exact IH].
+Qed.
+
+Definition J2 (pre : list stmt) (st : p2) : Prop :=
+  (forall lc blk, p2_cur st = Some (lc, blk) -> In (ob_span blk) (stmt_spans pre))
+  /\ (forall k b, In (k, b) (p2_map st) -> In (ob_span b) (stmt_spans pre)).
+
+Lemma rpo_spans n o pc L k sp : replace_pc_offset n o pc L = AErr k sp ->
+  label_kind k = true /\ exists l, o = PLab l /\ sp = [label_span l].
+Proof.
+  unfold replace_pc_offset. destruct o as [v|l]; [discriminate|].
+  destruct (assoc (upper (l_name l)) L) as [d|].
+  - destruct (sd_external d); [intros [= <- <-]; split; [reflexivity | exists l; split; reflexivity]|].
+    destruct (new_s n (to_i16 (sd_addr d - pc))); try discriminate. intros [= <- <-]. split; [reflexivity | exists l; split; reflexivity].
+  - intros [= <- <-]. split; [reflexivity | exists l; split; reflexivity].
+Qed.
+
+Lemma into_sim_spans s i pc L k sp : s_nucleus s = NInstr i -> into_sim_instr i pc L = AErr k sp ->
+  label_kind k = true /\ exists l, In l (labels_in s) /\ sp = [label_span l].
+Proof.
+  intros EN E.
+  assert (G : forall n o (f : Z -> sim_instr), operand_of s = match o with PLab l => Some (n, l) | _ => None end ->
+                abind (replace_pc_offset n o pc L) (fun v => AOk (f v)) = AErr k sp ->
+                label_kind k = true /\ exists l, In l (labels_in s) /\ sp = [label_span l]).
+  { intros n o f EO H. destruct (replace_pc_offset n o pc L) as [v|k0 sp0|] eqn:R; cbn [abind] in H; try discriminate.
+    injection H as <- <-. destruct (rpo_spans _ _ _ _ _ _ R) as [K [l [-> ->]]]. split; [exact K|]. exists l. split; [|reflexivity].
+    unfold labels_in. rewrite EO. apply in_or_app. right. apply in_or_app. right. left. reflexivity. }
+  unfold operand_of in G. rewrite EN in G.
+  destruct i; cbn [into_sim_instr] in E; try discriminate;
+    match type of E with abind (replace_pc_offset ?n ?o _ _) (fun v => AOk (@?f v)) = _ => apply (G n o f); [destruct o; reflexivity | exact E] end.
+Qed.
+
+Lemma p2_step_spans L pre st s :
+  J2 pre st ->
+  match p2_step L st s with
+  | AOk st' => J2 (pre ++ [s]) st'
+  | AErr k sp => spans_ok (pre ++ [s]) k sp
+  | APanic => True
+  end.
+Proof.
+  intros [JC JM].
+  assert (SS : forall k, label_kind k = false -> spans_ok (pre ++ [s]) k [stmt_span s]).
+  { intros k K. apply spans_ok_mono_l. split; [discriminate|]. split; [constructor; [left; apply stmt_span_in|constructor] | rewrite K; discriminate]. }
+  assert (LS : forall k l, label_kind k = true -> In l (labels_in s) -> spans_ok (pre ++ [s]) k [label_span l]).
+  { intros k l K Hl. apply spans_ok_mono_l. split; [discriminate|].
+    split; [|intros _]; constructor; try constructor; try right; apply label_span_in; exact Hl. }
+  assert (MONO : forall x, In x (stmt_spans pre) -> In x (stmt_spans (pre ++ [s]))).
+  { intros x H. unfold stmt_spans. rewrite map_app. apply in_or_app. left. exact H. }
+  assert (KEEP : forall lc' w', forall lc blk, p2_cur st = Some (lc, blk) ->
+            J2 (pre ++ [s]) (mkP2 (p2_map st) (Some (lc', mkOB (ob_start blk) w' (ob_span blk))))).
+  { intros lc' w' lc blk EC. split.
+    - intros lc0 blk0 [= <- <-]. cbn [ob_span]. apply MONO. exact (JC lc blk EC).
+    - intros k b H. apply MONO. exact (JM k b H). }
+  unfold p2_step. destruct (s_nucleus s) as [i|d] eqn:EN.
+  - destruct (p2_cur st) as [[lc blk]|] eqn:EC; [|apply SS; reflexivity].
+    destruct (into_sim_instr i (wrap16 (lc + 1)) L) as [sim|k sp|] eqn:EI; cbn [abind]; [|idtac|exact Logic.I].
+    + apply (KEEP _ _ lc blk eq_refl).
+    + destruct (into_sim_spans s i _ L k sp EN EI) as [K [l [Hl ->]]]. apply LS; assumption.
+  - destruct d as [a|o|n|t| |l].
+    + destruct (p2_cur st) as [[lc blk]|] eqn:EC; [exact Logic.I|]. split.
+      * intros lc0 blk0 [= <- <-]. cbn [ob_span]. unfold stmt_spans. rewrite map_app. apply in_or_app. right. left. reflexivity.
+      * intros k b H. apply MONO. exact (JM k b H).
+    + destruct (p2_cur st) as [[lc blk]|] eqn:EC; [|apply SS; reflexivity]. cbn [word_len].
+      destruct o as [v|l]; cbn [write_directive abind]; [apply (KEEP _ _ lc blk eq_refl)|].
+      destruct (lookup_label_map L (l_name l)); cbn [abind]; [apply (KEEP _ _ lc blk eq_refl)|].
+      apply LS; [reflexivity|]. unfold labels_in, operand_of. rewrite EN. apply in_or_app. right. left. reflexivity.
+    + destruct (p2_cur st) as [[lc blk]|] eqn:EC; [|apply SS; reflexivity]. cbn [word_len write_directive abind]. apply (KEEP _ _ lc blk eq_refl).
+    + destruct (p2_cur st) as [[lc blk]|] eqn:EC; [|apply SS; reflexivity].
+      destruct (word_len (DStringz t)); [|exact Logic.I]. cbn [write_directive abind]. apply (KEEP _ _ lc blk eq_refl).
+    + destruct (p2_cur st) as [[lc blk]|] eqn:EC; [|apply SS; reflexivity].
+      assert (JN : forall m, (forall k b, In (k, b) m -> In (ob_span b) (stmt_spans pre)) -> J2 (pre ++ [s]) (mkP2 m None)).
+      { intros m H. split; [discriminate|]. intros k b Hb. apply MONO. exact (H k b Hb). }
+      destruct (ob_words blk); [apply JN; exact JM|].
+      destruct (find_overlap blk _) as [[other|]|k sp|] eqn:FO; cbn [abind]; [| |exfalso; exact (find_overlap_no_err _ _ _ _ FO)|exact Logic.I].
+      * destruct (find_overlap_in _ _ _ FO) as [k Hk]. apply in_app_or in Hk.
+        assert (Ho : In (ob_span other) (stmt_spans pre)).
+        { destruct Hk as [Hk|Hk].
+          - destruct (bt_le (ob_start blk) (p2_map st)) as [x|] eqn:B; [|contradiction]. destruct Hk as [->|[]]. exact (JM _ _ (bt_le_in _ _ _ B)).
+          - destruct (bt_ge (ob_start blk) (p2_map st)) as [x|] eqn:B; [|contradiction]. destruct Hk as [->|[]]. exact (JM _ _ (bt_ge_in _ _ _ B)). }
+        pose proof (JC lc blk eq_refl) as Hb.
+        split; [destruct (fst (ob_span blk) <=? fst (ob_span other)); discriminate|]. split; [|discriminate].
+        destruct (fst (ob_span blk) <=? fst (ob_span other)); (constructor; [left; apply MONO; assumption|]); (constructor; [left; apply MONO; assumption|]); constructor.
+      * apply JN. intros k b H. apply bt_insert_in in H. destruct H as [E|H]; [injection E as -> ->; exact (JC lc blk eq_refl) | exact (JM k b H)].
+    + split; [intros lc blk H; apply MONO; exact (JC lc blk H) | intros k b H; apply MONO; exact (JM k b H)].
+Qed.
+
+Lemma p2_loop_spans L suf : forall pre st,
+  J2 pre st ->
+  match p2_loop L st suf with
+  | AOk st' => J2 (pre ++ suf) st'
+  | AErr k sp => spans_ok (pre ++ suf) k sp
+  | APanic => True
+  end.
+Proof.
+  induction suf as [|s suf IH]; intros pre st J; cbn [p2_loop].
+  - rewrite app_nil_r. exact J.
+  - pose proof (p2_step_spans L pre st s J) as S. destruct (p2_step L st s) as [st1|k sp|]; cbn [abind]; [| |exact Logic.I].
+    + specialize (IH (pre ++ [s]) st1 S). rewrite <- app_assoc in IH. exact IH.
+    + replace (pre ++ s :: suf) with ((pre ++ [s]) ++ suf) by (rewrite <- app_assoc; reflexivity). apply spans_ok_mono. exact S.
+Qed.
+
+(* ---------- assemble ---------- *)
+Theorem assemble_spans_plain p k sp : assemble false None p = AErr k sp -> spans_ok p k sp.
+Proof.
+  unfold assemble. destruct (pass1 p None) as [sym|k0 sp0|] eqn:P1; cbn [abind]; [|intros [= <- <-]; exact (pass1_spans p k0 sp0 P1)|discriminate].
+  unfold pass2. assert (J0 : J2 [] (mkP2 [] None)) by (split; [discriminate | intros ? ? []]).
+  pose proof (p2_loop_spans (st_labels sym) p [] _ J0) as S. cbn [app] in S.
+  destruct (p2_loop (st_labels sym) (mkP2 [] None) p) as [st|k0 sp0|]; cbn [abind]; [discriminate|intros [= <- <-]; exact S|discriminate].
+Qed.
+Theorem assemble_spans_debug text p k sp : assemble true (Some text) p = AErr k sp -> spans_ok p k sp.
+Proof.
+  intros E. pose proof (assemble_dbg text p) as D. destruct (assemble false None p) as [o0|k0 sp0|] eqn:E0.
+  - destruct D as [D|[o1 [D _]]]; congruence.
+  - destruct D as [D|D]; [congruence|]. rewrite D in E. injection E as <- <-. exact (assemble_spans_plain p k0 sp0 E0).
+  - congruence.
+Qed.
